@@ -28,7 +28,11 @@ def run_one(seed, props):
             return seed, {"error": "patch does not apply: " + r.stderr[:200]}
         for p in props:
             env = dict(os.environ, MASHVERIF_REPO=tmp, MASHVERIF_EVIDENCE_DIR=os.path.join(tmp, "evidence"))
-            r = subprocess.run(["/venv/bin/python", "-m", "mashverif", "check", p], cwd=VERIF, env=env, capture_output=True, text=True, timeout=1800)
+            try:
+                r = subprocess.run(["/venv/bin/python", "-m", "mashverif", "check", p], cwd=VERIF, env=env, capture_output=True, text=True, timeout=1500)
+            except subprocess.TimeoutExpired:
+                out[p] = {"rc": "timeout", "rules": [], "undecided": ["timeout after 1500 s"]}
+                continue
             viol = [l for l in r.stdout.splitlines() if "] mashumaro" in l or l.startswith("mashumaro")]
             rules = sorted({l.split("[", 1)[1].split("]", 1)[0] for l in r.stdout.splitlines() if ": [R" in l})
             out[p] = {"rc": r.returncode, "rules": rules,
